@@ -317,7 +317,8 @@ class Ledger:
                         if have[0] >= need:
                             continue
                         q = is_slice_param(b, lens.pv.op_tree(t["args"][p - 1]))
-                        if q is not None and b.j.get("exported") and b.j.get("pub") and not b.is_closure:
+                        if q is not None and b.j.get("exported") and b.j.get("pub") and not b.is_closure and \
+                                "::fuzz::" not in b.key:       # the feature-gated fuzzing shims are not host API
                             # the caller is public API: its own parameter is whatever the host passes - the requirement
                             # cannot be delegated any further
                             unsat.append((b, bi, t, callee, p, need, have[0]))
